@@ -103,10 +103,12 @@ CONSTANTS
   MaxTemp, MaxPerm,
   Fields,        \* the SOCKS arguments, in the order the handler applies them (a sequence)
   ArgChoices,    \* the argument vectors the environment may send (a set of functions field -> class)
+  NParts, Part,  \* ArgsPart is the Part-th of NParts slices of the full table (keeps simulation affordable)
   WithMain, StdinClose,
   Mode,          \* "socks": connections arrive through the loop ; "copy": connection 1 exists, granted and dialled (copyLoop alone)
   DialFails,     \* BOOLEAN: transport.Dial may fail (never with the real library)
   EnvLite,       \* BOOLEAN: no read errors / write failures, only ends of stream
+  SfScripted,    \* BOOLEAN: the environment drives the snowflake side (FALSE: the real Transport, whose stream stays silent)
   AsIs_Spin, AsIs_SharedConfig,
   Mut
 
@@ -125,14 +127,19 @@ ArgsNone == [f \in FieldSet |-> "absent"]
 ArgsFew == {a \in ArgsAll : Cardinality({f \in FieldSet : a[f] # "absent"}) <= 1} \cup
            {a \in ArgsAll : \A f \in FieldSet : a[f] = "ok"}
 
+ClsCode(c) == IF c = "absent" THEN 0 ELSE IF c = "ok" THEN 1 ELSE 2
+RECURSIVE WeightUpTo(_, _)
+WeightUpTo(a, k) == IF k = 0 THEN 0 ELSE (2 * k - 1) * ClsCode(a[Fields[k]]) + WeightUpTo(a, k - 1)
+ArgsPart == {a \in ArgsAll : WeightUpTo(a, Len(Fields)) % NParts = Part}
 ArgsOnlyNone == {ArgsNone}
 (* the vectors that matter between connections: nothing, a value, a bad value, the flag, an unparsable max *)
 ArgsTiny == {a \in ArgsFew : \A f \in FieldSet \ {"url", "max", "utls-nosni"} : a[f] = "absent"} \ {a \in ArgsAll : "max" \in FieldSet /\ a["max"] = "ok"}
 
 ASSUME NConns \in Nat /\ NUp \in Nat /\ NDown \in Nat /\ MaxTemp \in Nat /\ MaxPerm \in 0..1
 ASSUME WithMain \in BOOLEAN /\ StdinClose \in BOOLEAN /\ DialFails \in BOOLEAN /\ EnvLite \in BOOLEAN
+ASSUME SfScripted \in BOOLEAN
 ASSUME AsIs_Spin \in BOOLEAN /\ AsIs_SharedConfig \in BOOLEAN /\ Mode \in {"socks", "copy"}
-ASSUME ArgChoices \subseteq ArgsAll
+ASSUME ArgChoices \subseteq ArgsAll /\ NParts \in Nat \ {0} /\ Part \in 0..(NParts - 1)
 ASSUME Mut \in {"none", "doneUnbuffered", "waitBoth", "noDeferConn", "noSfClose", "noShutdownCase", "noWgDone",
                 "breakOnTemp", "rejectEndsLoop", "grantOnBadMax"}
 
@@ -407,16 +414,16 @@ SocksWriteFail(i) ==
   /\ C' = [C EXCEPT ![i].swfail = TRUE]
   /\ UNCHANGED <<L, M, shutdown, wg, shared>>
 SfChunk(i) ==
-  /\ Alive /\ C[i].d = "copy" /\ C[i].fend = "open" /\ C[i].fsent < NDown
+  /\ SfScripted /\ Alive /\ C[i].d = "copy" /\ C[i].fend = "open" /\ C[i].fsent < NDown
   /\ C' = [C EXCEPT ![i].fsent = @ + 1, ![i].fq = Append(@, C[i].fsent + 1)]
   /\ UNCHANGED <<L, M, shutdown, wg, shared>>
 SfEnd(i, kind) ==
   /\ (EnvLite => kind = "eof")
-  /\ Alive /\ C[i].d = "copy" /\ C[i].fend = "open"
+  /\ SfScripted /\ Alive /\ C[i].d = "copy" /\ C[i].fend = "open"
   /\ C' = [C EXCEPT ![i].fend = kind, ![i].fq = Append(@, EndMark(kind))]
   /\ UNCHANGED <<L, M, shutdown, wg, shared>>
 SfWriteFail(i) ==
-  /\ ~EnvLite /\ Alive /\ C[i].d = "copy" /\ ~C[i].fwfail
+  /\ ~EnvLite /\ SfScripted /\ Alive /\ C[i].d = "copy" /\ ~C[i].fwfail
   /\ C' = [C EXCEPT ![i].fwfail = TRUE]
   /\ UNCHANGED <<L, M, shutdown, wg, shared>>
 DialWillFail(i) ==    \* environment: fixed before the dial goroutine runs
@@ -426,7 +433,7 @@ DialWillFail(i) ==    \* environment: fixed before the dial goroutine runs
 
 (* without main (in-package harness): the harness closes the shutdown channel itself *)
 EnvShutdown ==
-  /\ ~WithMain /\ ~shutdown
+  /\ ~WithMain /\ Mode = "socks" /\ ~shutdown
   /\ shutdown' = TRUE
   /\ UNCHANGED <<L, C, M, wg, shared>>
 
@@ -547,8 +554,12 @@ SfClosedOnce    == \A i \in Conns : C[i].fclosed <= 1 /\ (C[i].d = "done" /\ ~C[
 (* the SOCKS reply: rejected exactly for an unparsable max or a refused config; one reply before the close *)
 ShouldReject(i) == ("max" \in FieldSet /\ C[i].args["max"] = "bad") \/ Refused(Expected(i))
 ReplyLaw ==
-  \A i \in Conns : C[i].h \in {"sclose", "wgdone", "done"} =>
+  \A i \in Conns : C[i].h \in {"select", "sclose", "wgdone", "done"} =>
      C[i].reply = (IF ShouldReject(i) THEN "rejected" ELSE "granted")
+
+(* CONSTRAINT of the configurations that check the whole precedence table: what happens after the reply does
+   not depend on the arguments, it is explored by the other configurations *)
+UpToReply == \A i \in Conns : C[i].d = "none"
 
 (* the config precedence table *)
 ConfigIsolation ==
